@@ -378,3 +378,356 @@ Proof.
 Qed.
 
 End Callbacks.
+
+(* ------------------------------------------------------------------ *)
+(* Part 3.  One feedback pair through one engine cycle                  *)
+(* ------------------------------------------------------------------ *)
+Section Pair.
+Variable cfgs : list ncfg.
+Variable kinds : list fkind.
+Variable beh : behaviour.
+Notation n := (length cfgs).
+Notation cfg := (EngineFacts.cfg cfgs).
+Notation kind := (kind_at kinds).
+
+(* What the wiring layer guarantees about a graph with feedback (graph_wiring.cpp, control.h):
+   every edge points forward in node order - in particular a source is ranked before its
+   readers and before its sink, and a sink after its producer (the ts_self edge is rank-free,
+   the source is a PullSource without inputs); the two node kinds have the schemas that
+   make_feedback_*_node give them; a source is bound at most once. *)
+Record fb_wf : Prop := {
+  wf_len : length kinds = n;
+  wf_rank : well_ranked cfgs;
+  wf_source : forall i init, kind i = FSource init -> cfg i = source_cfg;
+  wf_sink : forall i, kind i = FSink -> exists p s init, cfg i = sink_cfg p s /\ kind s = FSource init;
+  wf_pair : forall k k', kind k = FSink -> kind k' = FSink -> sink_src (cfg k) = sink_src (cfg k') -> k = k' }.
+
+Lemma kind_lt i : kind i <> FNative -> (i < length kinds)%nat.
+Proof.
+  intros H. destruct (Nat.lt_ge_cases i (length kinds)); auto.
+  exfalso. apply H. unfold kind_at. apply nth_overflow; auto.
+Qed.
+
+Record base (t : Z) (x : xst) : Prop := {
+  b_now : g_now (f_g x) = t;
+  b_ls : length (g_slots (f_g x)) = n;
+  b_ln : length (g_nodes (f_g x)) = n;
+  b_lst : length (f_st x) = n;
+  b_started : forall i, (i < n)%nat -> n_started (node_at i (f_g x)) = true;
+  b_nst : t < g_nst (f_g x) }.
+
+Hypothesis WF : fb_wf.
+Variables (k p s : nat) (init : option Z).
+Hypothesis HK : kind k = FSink.
+Hypothesis HC : cfg k = sink_cfg p s.
+Hypothesis HS : kind s = FSource init.
+
+Lemma k_lt : (k < n)%nat.
+Proof. rewrite <- (wf_len WF). apply kind_lt. rewrite HK. discriminate. Qed.
+Lemma s_lt_k : (s < k)%nat.
+Proof. apply (wf_rank WF k (mkIn s false false) k_lt). fold (cfg k). rewrite HC. simpl. auto. Qed.
+Lemma p_lt_k : (p < k)%nat.
+Proof. apply (wf_rank WF k (mkIn p true true) k_lt). fold (cfg k). rewrite HC. simpl. auto. Qed.
+Lemma s_cfg : cfg s = source_cfg.
+Proof. apply (wf_source WF s init HS). Qed.
+
+Definition same_out (i : nat) (g g' : gst) : Prop :=
+  n_val (node_at i g') = n_val (node_at i g) /\ n_lmt (node_at i g') = n_lmt (node_at i g).
+
+(* everything the scan step at node j does that matters to the pair (k, p, s) *)
+Record eff (t : Z) (j : nat) (x x' : xst) : Prop := {
+  e_base : base t x';
+  e_nst : g_nst (f_g x') <= g_nst (f_g x);
+  e_nodes : forall m, m <> j -> node_at m (f_g x') = node_at m (f_g x);
+  e_state : j <> k -> state_at s x' = state_at s x;
+  e_slot_s : j <> k -> slot_at s (f_g x') = slot_at s (f_g x);
+  e_slot_k : j <> p -> slot_at k (f_g x') = slot_at k (f_g x);
+  e_src : j = s ->
+     (slot_at s (f_g x) = t /\
+      match state_at s x with
+      | Some v => n_lmt (node_at s (f_g x')) = t /\ n_val (node_at s (f_g x')) = Some v
+      | None => same_out s (f_g x) (f_g x')
+      end) \/ (slot_at s (f_g x) <> t /\ same_out s (f_g x) (f_g x'));
+  e_prod : j = p ->
+     (same_out p (f_g x) (f_g x') /\ slot_at k (f_g x') = slot_at k (f_g x)) \/
+     (n_lmt (node_at p (f_g x')) = t /\ n_val (node_at p (f_g x')) <> None /\ slot_at k (f_g x') = t);
+  e_sink : j = k ->
+     (slot_at k (f_g x) = t /\ exists v, n_val (node_at p (f_g x)) = Some v /\ state_at s x' = Some v /\
+        (slot_at s (f_g x) <= t -> slot_at s (f_g x') = t + 1 /\ g_nst (f_g x') <= t + 1)) \/
+     ((slot_at k (f_g x) <> t \/ n_val (node_at p (f_g x)) = None) /\
+      state_at s x' = state_at s x /\ slot_at s (f_g x') = slot_at s (f_g x)) }.
+
+Lemma step_eff t j x :
+  (j < n)%nat -> base t x -> eff t j x (fscan_step cfgs kinds beh j x).
+Proof.
+  intros Hj [B1 B2 B3 B4 B5 B6]. unfold fscan_step. cbn zeta.
+  pose proof k_lt as KL. pose proof s_lt_k as SK. pose proof p_lt_k as PK. pose proof s_cfg as SC.
+  destruct (slot_at j (f_g x) =? g_now (f_g x)) eqn:E.
+  - (* the node is due: evaluated *)
+    assert (Es : slot_at j (f_g x) = t) by lia.
+    set (g0 := upd_node j inc_evals (emit [11; Z.of_nat j; g_now (f_g x)] (f_g x))).
+    assert (G0n : g_now g0 = t) by exact B1.
+    assert (G0l : length (g_nodes g0) = n) by (unfold g0, upd_node; simpl; rewrite update_length; auto).
+    assert (G0o : forall m, m <> j -> node_at m g0 = node_at m (f_g x)).
+    { intros m Hm. unfold g0. rewrite node_at_upd_other; auto. }
+    assert (G0j : node_at j g0 = inc_evals (node_at j (f_g x))).
+    { unfold g0. rewrite node_at_upd_same; auto. simpl. lia. }
+    assert (G0s : forall m, n_started (node_at m g0) = n_started (node_at m (f_g x)) /\
+                            n_val (node_at m g0) = n_val (node_at m (f_g x)) /\ n_lmt (node_at m g0) = n_lmt (node_at m (f_g x))).
+    { intros m. destruct (Nat.eq_dec m j) as [->|Hm]; [rewrite G0j; auto|rewrite G0o; auto]. }
+    assert (G0sl : forall m, slot_at m g0 = slot_at m (f_g x)) by reflexivity.
+    assert (G0nst : g_nst g0 = g_nst (f_g x)) by reflexivity.
+    assert (G0ls : length (g_slots g0) = n) by exact B2.
+    unfold eval_any. simpl f_g. simpl f_st. fold g0.
+    destruct (kind j) eqn:Kj.
+    + (* native node *)
+      assert (Njs : j <> s) by (intros ->; congruence).
+      assert (Njk : j <> k) by (intros ->; congruence).
+      pose proof (frame_eval_node cfgs beh j g0 ltac:(lia)) as [F1 F2 F3 F4 F5 F6 F7 F8].
+      constructor; simpl f_g; simpl f_st; try contradiction.
+      * constructor; simpl; try congruence; try lia.
+        intros i Hi. destruct (Nat.eq_dec i j) as [->|Hne].
+        -- rewrite F5. rewrite (proj1 (G0s j)). auto.
+        -- rewrite F4 by auto. rewrite (proj1 (G0s i)). auto.
+      * lia.
+      * intros m Hm. rewrite F4, G0o; auto.
+      * reflexivity.
+      * intros _. destruct F8 as [(Q1 & Q2 & Q3)|(_ & W1 & W2 & W3 & W4)].
+        -- rewrite Q3; auto.
+        -- destruct (W3 s ltac:(auto)) as [X|[X _]]; [rewrite X; auto|]. rewrite act_from_source in X; auto. discriminate.
+      * intros Hp. destruct F8 as [(Q1 & Q2 & Q3)|(_ & W1 & W2 & W3 & W4)].
+        -- rewrite Q3; auto.
+        -- destruct (W3 k ltac:(auto)) as [X|[X _]]; [rewrite X; auto|]. apply (act_from_sink cfgs j k p s HC) in X. contradiction.
+      * intros ->. destruct F8 as [(Q1 & Q2 & Q3)|(_ & W1 & W2 & W3 & W4)].
+        -- left. split; [split|]; try (rewrite Q3; auto). rewrite Q1; apply G0s. rewrite Q2; apply G0s.
+        -- right. split; [congruence|]. split; auto. rewrite <- G0n. apply W4; auto; try lia.
+           ++ apply (act_from_sink_prod cfgs k p s HC).
+           ++ rewrite (proj1 (G0s k)). auto.
+    + (* a feedback source *)
+      assert (Njk : j <> k) by (intros ->; congruence).
+      assert (Cj : cfg j = source_cfg) by (apply (wf_source WF j init0 Kj)).
+      destruct (eval_source_spec cfgs j (mkF g0 (f_st x)) ltac:(simpl f_g; rewrite G0l; exact Hj) Cj) as ([F1 F2 F3 F4 F5 F6 F7 F8] & S1 & S2 & S3).
+      cbn [f_g f_st] in *.
+      assert (Stj : n_started (node_at j g0) = true) by (rewrite (proj1 (G0s j)); auto).
+      specialize (S3 Stj).
+      constructor; try contradiction.
+      * constructor; try congruence; try lia.
+        intros i Hi. destruct (Nat.eq_dec i j) as [->|Hne].
+        -- rewrite F5. auto.
+        -- rewrite F4 by auto. rewrite (proj1 (G0s i)). auto.
+      * lia.
+      * intros m Hm. rewrite F4, G0o; auto.
+      * intros _. unfold state_at. rewrite S1. reflexivity.
+      * intros _. destruct (Nat.eq_dec j s) as [->|Njs]; [rewrite S2; auto|].
+        destruct F8 as [(Q1 & Q2 & Q3)|(_ & W1 & W2 & W3 & W4)].
+        -- rewrite Q3; auto.
+        -- destruct (W3 s ltac:(auto)) as [X|[X _]]; [rewrite X; auto|]. rewrite act_from_source in X; auto. discriminate.
+      * intros Hp. destruct F8 as [(Q1 & Q2 & Q3)|(_ & W1 & W2 & W3 & W4)].
+        -- rewrite Q3; auto.
+        -- destruct (W3 k ltac:(auto)) as [X|[X _]]; [rewrite X; auto|]. apply (act_from_sink cfgs j k p s HC) in X. contradiction.
+      * intros ->. left. split; auto.
+        change (state_at s {| f_g := g0; f_st := f_st x |}) with (state_at s x) in S3.
+        destruct (state_at s x) as [v|].
+        -- rewrite <- G0n. exact S3.
+        -- destruct S3 as [X Y]. split; [rewrite X|rewrite Y]; apply G0s.
+      * intros ->. destruct F8 as [(Q1 & Q2 & Q3)|(_ & W1 & W2 & W3 & W4)].
+        -- left. split; [split|]; try (rewrite Q3; auto). rewrite Q1; apply G0s. rewrite Q2; apply G0s.
+        -- right. split; [congruence|]. split; auto. rewrite <- G0n. apply W4; auto; try lia.
+           ++ apply (act_from_sink_prod cfgs k p s HC).
+           ++ rewrite (proj1 (G0s k)). auto.
+    + (* a feedback sink *)
+      assert (Njs : j <> s) by (intros ->; congruence).
+      destruct (wf_sink WF j Kj) as (pp & ss & ii & Cj & Kss).
+      destruct (eval_sink_spec cfgs j (mkF g0 (f_st x)) pp ss Cj) as (A1 & A2 & A3 & A4 & A5 & A6 & A7 & A8 & A9).
+      cbn [f_g f_st] in *.
+      set (x' := eval_sink cfgs j {| f_g := g0; f_st := f_st x |}) in *.
+      assert (ND : forall m, node_at m (f_g x') = node_at m g0) by (intros; unfold node_at; rewrite A2; auto).
+      assert (Nssk : k <> ss) by (intros <-; congruence).
+      assert (Hss : j <> k -> s <> ss).
+      { intros Hne <-. apply Hne. apply (wf_pair WF j k Kj HK). rewrite Cj, HC. reflexivity. }
+      constructor; try contradiction.
+      * constructor; try congruence; try lia.
+        intros i Hi. rewrite ND. rewrite (proj1 (G0s i)). auto.
+      * lia.
+      * intros m Hm. rewrite ND. apply G0o; auto.
+      * intros Hne. rewrite A8; auto.
+      * intros Hne. rewrite A7; auto.
+      * intros _. rewrite A7; auto.
+      * intros ->. left. split; [split; rewrite ND; apply G0s|]. rewrite A7; auto.
+      * intros ->. assert (pp = p /\ ss = s) as [-> ->].
+        { rewrite HC in Cj. unfold sink_cfg in Cj. inversion Cj; auto. }
+        destruct A9 as [(_ & v & V1 & V2 & V3)|([X|X] & Y1 & Y2)].
+        -- left. split; auto. exists v. split; [rewrite <- (proj1 (proj2 (G0s p))); auto|]. split; [apply V2; lia|].
+           intros Hle. rewrite <- G0n. apply V3; try lia. rewrite G0sl, G0n. exact Hle.
+        -- rewrite (proj1 (G0s k)) in X. rewrite B5 in X by auto. discriminate.
+        -- right. split; [right; rewrite <- (proj1 (proj2 (G0s p))); auto|]. split; auto.
+  - (* not due: the slot is only folded into the cached next time *)
+    assert (Es : slot_at j (f_g x) <> t) by lia.
+    set (x' := if g_now (f_g x) <? slot_at j (f_g x) then {| f_g := fold_slot (slot_at j (f_g x)) (f_g x); f_st := f_st x |} else x).
+    assert (X : g_now (f_g x') = g_now (f_g x) /\ g_slots (f_g x') = g_slots (f_g x) /\ g_nodes (f_g x') = g_nodes (f_g x) /\
+                f_st x' = f_st x /\ g_nst (f_g x') <= g_nst (f_g x) /\ g_now (f_g x) < g_nst (f_g x')).
+    { unfold x'. destruct (g_now (f_g x) <? slot_at j (f_g x)) eqn:E2; [|repeat split; auto; lia].
+      unfold fold_slot. destruct (slot_at j (f_g x) <? g_nst (f_g x)) eqn:E3; simpl; repeat split; auto; lia. }
+    destruct X as (X1 & X2 & X3 & X4 & X5 & X6).
+    assert (ND : forall m, node_at m (f_g x') = node_at m (f_g x)) by (intros; unfold node_at; rewrite X3; auto).
+    assert (SL : forall m, slot_at m (f_g x') = slot_at m (f_g x)) by (intros; unfold slot_at; rewrite X2; auto).
+    assert (ST : forall m, state_at m x' = state_at m x) by (intros; unfold state_at; rewrite X4; auto).
+    constructor; auto; try lia.
+    + constructor; try congruence; try lia. intros i Hi. rewrite ND. auto.
+    + intros ->. right. split; auto. split; rewrite ND; auto.
+    + intros ->. left. split; [split; rewrite ND; auto|auto].
+    + intros ->. right. split; auto.
+Qed.
+
+(* the producer's write / the source's tick in the current cycle, as a reader sees them *)
+Definition tick_now (i : nat) (g : gst) : option Z :=
+  if n_lmt (node_at i g) =? g_now g then n_val (node_at i g) else None.
+
+(* the invariant of the scan, for the pair: [pend] is the value captured in the previous
+   cycle (or the initial value before the first one) *)
+Record PI (pend : option Z) (t : Z) (j : nat) (x : xst) : Prop := {
+  pi_base : base t x;
+  pi_src_le : n_lmt (node_at s (f_g x)) <= t;
+  pi_src_before : (j <= s)%nat -> n_lmt (node_at s (f_g x)) < t /\
+       match pend with Some v => state_at s x = Some v /\ slot_at s (f_g x) = t | None => slot_at s (f_g x) < t end;
+  pi_src_after : (s < j)%nat -> tick_now s (f_g x) = pend /\ ((j <= k)%nat -> slot_at s (f_g x) <= t);
+  pi_prod_le : n_lmt (node_at p (f_g x)) <= t;
+  pi_prod_before : (j <= p)%nat -> n_lmt (node_at p (f_g x)) < t;
+  pi_sink_le : slot_at k (f_g x) <= t;
+  pi_sink_before : (j <= k)%nat -> (slot_at k (f_g x) = t <-> n_lmt (node_at p (f_g x)) = t);
+  pi_after : (k < j)%nat ->
+       match tick_now p (f_g x) with
+       | Some v => state_at s x = Some v /\ slot_at s (f_g x) = t + 1 /\ g_nst (f_g x) <= t + 1
+       | None => slot_at s (f_g x) <= t
+       end }.
+
+Lemma PI_step pend t j x :
+  (j < n)%nat -> PI pend t j x -> PI pend t (S j) (fscan_step cfgs kinds beh j x).
+Proof.
+  intros Hj [P0 P1 P2 P3 P4 P5 P6 P7 P8].
+  pose proof (step_eff t j x Hj P0) as [E0 E1 E2 E3 E4 E5 E6 E7 E8].
+  pose proof s_lt_k as SK. pose proof p_lt_k as PK.
+  set (x' := fscan_step cfgs kinds beh j x) in *.
+  assert (Nt : g_now (f_g x) = t) by (destruct P0; auto).
+  assert (Nt' : g_now (f_g x') = t) by (destruct E0; auto).
+  constructor; auto.
+  - (* source: lmt <= t *)
+    destruct (Nat.eq_dec j s) as [->|Hne]; [|rewrite E2; auto].
+    destruct (E6 eq_refl) as [[_ X]|[_ [X Y]]].
+    + destruct (state_at s x); [lia|destruct X as [X Y]; rewrite Y; auto].
+    + rewrite Y; auto.
+  - intros Hle. assert (j <> s) by lia. assert (j <> k) by lia.
+    rewrite E2, E3, E4 by auto. apply P2. lia.
+  - intros Hlt. destruct (Nat.eq_dec j s) as [->|Hne].
+    + assert (Hk : s <> k) by lia. destruct (P2 ltac:(lia)) as [L1 L2].
+      rewrite (E4 Hk). unfold tick_now. rewrite Nt'.
+      destruct (E6 eq_refl) as [[X1 X2]|[X1 [X2 X3]]].
+      * destruct pend as [v|]; [|lia]. destruct L2 as [L2 L3]. rewrite L2 in X2. destruct X2 as [Y1 Y2].
+        rewrite Y1, Y2. rewrite Z.eqb_refl. split; auto. lia.
+      * destruct pend as [v|]; [destruct L2; contradiction|].
+        rewrite X3. replace (n_lmt (node_at s (f_g x)) =? t) with false by lia. split; auto. lia.
+    + destruct (P3 ltac:(lia)) as [L1 L2]. split.
+      * unfold tick_now in *. rewrite Nt'. rewrite E2 by auto. rewrite <- Nt. exact L1.
+      * intros Hk. rewrite E4 by lia. apply L2. lia.
+  - (* producer: lmt <= t *)
+    destruct (Nat.eq_dec j p) as [->|Hne]; [|rewrite E2; auto].
+    destruct (E7 eq_refl) as [[[X Y] _]|[X _]]; [rewrite Y; auto|lia].
+  - intros Hle. rewrite E2 by lia. apply P5. lia.
+  - (* sink slot <= t *)
+    destruct (Nat.eq_dec j p) as [->|Hne]; [|rewrite E5; auto].
+    destruct (E7 eq_refl) as [[_ X]|[_ [_ X]]]; [rewrite X; auto|lia].
+  - intros Hle. destruct (Nat.eq_dec j p) as [->|Hne].
+    + destruct (E7 eq_refl) as [[[X Y] Z']|[X [_ Z']]].
+      * rewrite Z', Y. apply P7. lia.
+      * rewrite X, Z'. tauto.
+    + rewrite E5, E2 by auto. apply P7. lia.
+  - intros Hlt. destruct (Nat.eq_dec j k) as [->|Hne].
+    + assert (Hp : p <> k) by lia.
+      assert (TN : tick_now p (f_g x') = tick_now p (f_g x)).
+      { unfold tick_now. rewrite Nt', Nt. rewrite E2 by auto. reflexivity. }
+      rewrite TN. unfold tick_now. rewrite Nt.
+      destruct (P3 ltac:(lia)) as [_ L2]. specialize (L2 ltac:(lia)).
+      destruct (E8 eq_refl) as [[X1 (v & V1 & V2 & V3)]|[X1 [X2 X3]]].
+      * apply P7 in X1; [|lia]. rewrite X1, Z.eqb_refl, V1. split; auto.
+      * rewrite X3. destruct X1 as [X1|X1].
+        -- assert (n_lmt (node_at p (f_g x)) <> t) by (intros Q; apply X1; apply P7; auto; lia).
+           replace (n_lmt (node_at p (f_g x)) =? t) with false by lia. auto.
+        -- rewrite X1. destruct (n_lmt (node_at p (f_g x)) =? t); auto.
+    + assert (Hp : p <> j) by lia.
+      assert (TN : tick_now p (f_g x') = tick_now p (f_g x)).
+      { unfold tick_now. rewrite Nt', Nt. rewrite E2 by auto. reflexivity. }
+      rewrite TN. rewrite E3, E4 by auto. specialize (P8 ltac:(lia)).
+      destruct (tick_now p (f_g x)); [|auto]. destruct P8 as (A & B & C). repeat split; auto. lia.
+Qed.
+
+Lemma fscan_err_sticky m : forall j x, g_err (f_g x) <> 0 -> fscan cfgs kinds beh j m x = x.
+Proof. destruct m; simpl; auto. intros j x H. replace (negb (g_err (f_g x) =? 0)) with true by lia. auto. Qed.
+
+Lemma fscan_PI pend t m : forall j x,
+  (j + m = n)%nat -> PI pend t j x -> g_err (f_g (fscan cfgs kinds beh j m x)) = 0 ->
+  PI pend t n (fscan cfgs kinds beh j m x).
+Proof.
+  induction m as [|m IH]; intros j x Hjm H Herr; simpl in *.
+  - replace n with j by lia. exact H.
+  - destruct (negb (g_err (f_g x) =? 0)) eqn:E0; [lia|].
+    apply IH; auto; [lia|]. apply PI_step; auto. lia.
+Qed.
+
+(* the invariant between two cycles; the next cycle is at [g_nst] *)
+Record FB (pend : option Z) (x : xst) : Prop := {
+  fb_ls : length (g_slots (f_g x)) = n;
+  fb_ln : length (g_nodes (f_g x)) = n;
+  fb_lst : length (f_st x) = n;
+  fb_started : forall i, (i < n)%nat -> n_started (node_at i (f_g x)) = true;
+  fb_lmt_s : n_lmt (node_at s (f_g x)) < g_nst (f_g x);
+  fb_lmt_p : n_lmt (node_at p (f_g x)) < g_nst (f_g x);
+  fb_slot_k : slot_at k (f_g x) < g_nst (f_g x);
+  fb_pend : match pend with
+            | Some v => state_at s x = Some v /\ slot_at s (f_g x) = g_nst (f_g x)
+            | None => slot_at s (f_g x) < g_nst (f_g x)
+            end }.
+
+(* ONE ENGINE CYCLE: the source ticks in it exactly the value captured before it (and only
+   then); whatever the producer writes in it is captured for the next smallest step, for
+   which a cycle is requested whatever else is (not) scheduled. *)
+Lemma fcycle_pair pend x :
+  FB pend x -> g_nst (f_g x) < MAX_DT ->
+  let t := g_nst (f_g x) in
+  let x' := fcycle cfgs kinds beh t x in
+  g_err (f_g x') = 0 ->
+  g_now (f_g x') = t /\ tick_now s (f_g x') = pend /\ FB (tick_now p (f_g x')) x' /\
+  t < g_nst (f_g x') /\ (tick_now p (f_g x') <> None -> g_nst (f_g x') = t + MIN_TD).
+Proof.
+  intros [L1 L2 L3 St A1 A2 A3 A4] Hlt. cbn zeta. unfold fcycle. cbn zeta. simpl f_g. simpl f_st.
+  set (t := g_nst (f_g x)).
+  set (x0 := {| f_g := begin_cycle t (f_g x); f_st := f_st x |}).
+  intros Herr.
+  pose proof s_lt_k as SK. pose proof p_lt_k as PK. pose proof k_lt as KL.
+  assert (H0 : PI pend t 0 x0).
+  { constructor; simpl; try lia.
+    - constructor; simpl; auto.
+    - fold t in A1. unfold node_at in *; simpl. lia.
+    - intros _. fold t in A1, A4. unfold node_at, slot_at, state_at in *; simpl. split; [lia|]. destruct pend; auto.
+    - fold t in A2. unfold node_at in *; simpl. lia.
+    - intros _. fold t in A2. unfold node_at in *; simpl. lia.
+    - fold t in A3. unfold slot_at in *; simpl. lia.
+    - intros _. fold t in A2, A3. unfold node_at, slot_at in *; simpl. lia. }
+  pose proof (fscan_PI pend t n 0%nat x0 ltac:(lia) H0 Herr) as [[B1 B2 B3 B4 B5 B6] P1 P2 P3 P4 P5 P6 P7 P8].
+  set (x1 := fscan cfgs kinds beh 0 n x0) in *.
+  change (g_now (f_g x1) = t /\ tick_now s (f_g x1) = pend /\
+          FB (tick_now p (f_g x1)) {| f_g := emit [20; t; g_nst (f_g x1)] (f_g x1); f_st := f_st x1 |} /\
+          t < g_nst (f_g x1) /\ (tick_now p (f_g x1) <> None -> g_nst (f_g x1) = t + MIN_TD)).
+  specialize (P8 ltac:(lia)). destruct (P3 ltac:(lia)) as [R _].
+  split; auto. split; auto. split; [|split; auto].
+  - constructor; simpl; auto; try lia.
+    + change (n_lmt (node_at s (f_g x1)) < g_nst (f_g x1)). lia.
+    + change (n_lmt (node_at p (f_g x1)) < g_nst (f_g x1)). lia.
+    + change (slot_at k (f_g x1) < g_nst (f_g x1)). lia.
+    + change (match tick_now p (f_g x1) with
+            | Some v => state_at s x1 = Some v /\ slot_at s (f_g x1) = g_nst (f_g x1)
+            | None => slot_at s (f_g x1) < g_nst (f_g x1) end).
+      destruct (tick_now p (f_g x1)); [|lia]. destruct P8 as (X & Y & Z'). split; auto. lia.
+  - intros Hw. destruct (tick_now p (f_g x1)); [|congruence]. unfold MIN_TD. lia.
+Qed.
+
+End Pair.
